@@ -510,13 +510,25 @@ func init() {
 		// ---- math ---------------------------------------------------------
 		"math.Float64bits": func(fr *frame, a []value) value {
 			if s, ok := a[0].(*sym); ok {
-				fr.i.note("math.Float64bits of a symbolic float: NaN payloads are unconstrained")
-				return &sym{fr.i.ts.mk("fp.to_ieee_bv", bvSort(64), s.t)}
+				if s.t.op == "(_ to_fp 11 53)" && len(s.t.args) == 1 && s.t.args[0].sort.k == sBV {
+					return &sym{s.t.args[0]}
+				}
+				fr.i.note("math.Float64bits of a symbolic float: the NaN payload is arbitrary (any NaN encoding)")
+				bits := fr.i.ts.mk("fp.to_ieee_bv", bvSort(64), s.t)
+				if fr.i.path != nil {
+					// round-trip axiom: pins NaN to a NaN encoding (SMT-LIB leaves it unspecified)
+					back := fr.i.ts.mk("(_ to_fp 11 53)", fp64Sort, bits)
+					fr.i.path.addPC(fr.i.ts.mk("=", boolSort, back, s.t))
+				}
+				return &sym{bits}
 			}
 			return math.Float64bits(a[0].(float64))
 		},
 		"math.Float64frombits": func(fr *frame, a []value) value {
 			if s, ok := a[0].(*sym); ok {
+				if s.t.op == "fp.to_ieee_bv" {
+					return &sym{s.t.args[0]}
+				}
 				return &sym{fr.i.ts.mk("(_ to_fp 11 53)", fp64Sort, s.t)}
 			}
 			return math.Float64frombits(a[0].(uint64))
@@ -844,4 +856,70 @@ var _ = types.Typ
 func init() {
 	externals["internal/reflectlite.TypeOf"] = ext۰reflect۰TypeOf
 	externals["internal/reflectlite.ValueOf"] = ext۰reflect۰ValueOf
+}
+
+// ---- encoding/binary as concat/extract ---------------------------------------
+
+func leLoad(fr *frame, b []value, n int) value {
+	if len(b) < n {
+		panic(runtimeErr{fmt.Sprintf("index out of range [%d] with length %d", n-1, len(b))})
+	}
+	conc := true
+	for k := 0; k < n; k++ {
+		if _, ok := b[k].(uint8); !ok {
+			conc = false
+		}
+	}
+	if conc {
+		var v uint64
+		for k := n - 1; k >= 0; k-- {
+			v = v<<8 | uint64(b[k].(uint8))
+		}
+		switch n {
+		case 2:
+			return uint16(v)
+		case 4:
+			return uint32(v)
+		}
+		return v
+	}
+	i := fr.i
+	acc := byteTerm(i, b[n-1])
+	for k := n - 2; k >= 0; k-- {
+		acc = i.ts.Concat(acc, byteTerm(i, b[k]))
+	}
+	return &sym{acc}
+}
+
+func leStore(fr *frame, b []value, v value, n int) {
+	if len(b) < n {
+		panic(runtimeErr{fmt.Sprintf("index out of range [%d] with length %d", n-1, len(b))})
+	}
+	i := fr.i
+	if s, ok := v.(*sym); ok {
+		for k := 0; k < n; k++ {
+			i.setCell(&b[k], mkSym(i.ts.Extract(s.t, 8*k+7, 8*k), types.Uint8))
+		}
+		return
+	}
+	u := asUint64(v)
+	for k := 0; k < n; k++ {
+		i.setCell(&b[k], uint8(u>>(8*uint(k))))
+	}
+}
+
+func init() {
+	for _, e := range []struct {
+		name string
+		n    int
+	}{{"Uint16", 2}, {"Uint32", 4}, {"Uint64", 8}} {
+		n := e.n
+		externals["(encoding/binary.littleEndian)."+e.name] = func(fr *frame, a []value) value {
+			return leLoad(fr, a[1].([]value), n)
+		}
+		externals["(encoding/binary.littleEndian).Put"+e.name] = func(fr *frame, a []value) value {
+			leStore(fr, a[1].([]value), a[2], n)
+			return nil
+		}
+	}
 }
